@@ -331,7 +331,13 @@ func checkAll(s *PebbleScanner, m *storeModel, scope checkScope, withExport bool
 		}
 	}
 	// by entropy range
-	for gi, g := range entropyGrid {
+	// big stores (bulk loads): the entropy ranges and probes added for small-store
+	// corner cases are left out, every pass over thousands of records costs
+	grid, probes := entropyGrid, probeTopos
+	if len(m.sigs) > 500 {
+		grid, probes = entropyGrid[:5], probeTopos[:len(poolTopos)]
+	}
+	for gi, g := range grid {
 		if stride > 1 && gi != 0 && gi != 2 {
 			continue // bulk-loaded models: two ranges (each costs one record decode per signature)
 		}
@@ -370,7 +376,7 @@ func checkAll(s *PebbleScanner, m *storeModel, scope checkScope, withExport bool
 	// scans
 	batchIn := map[string]*topology.FunctionTopology{}
 	batchWant := map[string]map[string]detection.ScanResult{}
-	for i, topo := range probeTopos {
+	for i, topo := range probes {
 		name := probeNames[i]
 		what := fmt.Sprintf("%sScanTopology(%s thr=%v tol=%v)", tag, name, m.threshold, m.tolerance)
 		want := specAlerts(m.sigs, topo, name, m.threshold, m.tolerance, false)
